@@ -295,6 +295,8 @@ Deviations(c, ns) ==
   LET Has(P(_)) == \E i \in 1..Len(ns) : P(ns[i]) IN
   (IF Feat(c, "fstr-bang") /\ Has(ExplicitConv) THEN {[key |-> "fstring-conversion-crash", outcome |-> "crash:AttributeError", mask |-> ""]} ELSE {}) \cup
   (IF Feat(c, "fstr-escape") /\ Has(IsJS) THEN {[key |-> "fstring-escape-not-decoded", outcome |-> "", mask |-> "fstr-literal-value"]} ELSE {}) \cup
+  \* after a line containing a form feed / U+2028 / ... the text of a debug field is taken from the wrong line
+  (IF Feat(c, "fstr-debug") /\ Feat(c, "odd-linebreak") /\ Has(IsFV) THEN {[key |-> "fstring-debug-text-wrong-line", outcome |-> "", mask |-> "fstr-literal"]} ELSE {}) \cup
   (IF Feat(c, "fstr-debug") /\ Has(IsFV) THEN {[key |-> "fstring-debug-text-lost", outcome |-> "", mask |-> "fstr-literal"]} ELSE {}) \cup
   (IF Has(EmptyTarget) THEN {[key |-> "empty-target-elts-none", outcome |-> "crash:TypeError", mask |-> ""]} ELSE {}) \cup
   (IF Has(StarAnnotation) THEN {[key |-> "star-annotation-lost", outcome |-> "", mask |-> "star-annotation"]} ELSE {}) \cup
